@@ -180,3 +180,19 @@ var castagnoli = crc32.MakeTable(crc32.Castagnoli)
 // CRC32C is the CRC-32C update function; under the engine it is the same uninterpreted
 // function that stands for hash/crc32 and klauspost/crc32 Update.
 func CRC32C(prev uint32, data []byte) uint32 { return crc32.Update(prev, castagnoli, data) }
+
+var tmpDir string
+
+// TempDir returns a scratch directory: a fixed virtual path under the engine's in-memory file
+// system, a fresh real directory natively.
+func TempDir() string {
+	if tmpDir != "" {
+		os.RemoveAll(tmpDir)
+	}
+	d, err := os.MkdirTemp("", "verifreplay")
+	if err != nil {
+		panic(err)
+	}
+	tmpDir = d
+	return d
+}
